@@ -163,3 +163,44 @@ def spec_numeric_to_raw(cls, value):
     if Or(value < lo, value > hi):
         throw(OverflowError)
     return bytes_of([(value >> (8 * (n - 1 - i))) & 0xFF for i in range(n)])
+
+
+# ----------------------------------------------------------------------------- call-site contract of from_list
+from pyvc.engine import contract            # noqa: E402
+from pyvc.values import Deferred            # noqa: E402
+
+
+@contract("dali.memory.location:MemoryValue.from_list")
+def from_list_contract(cls, list_):
+    """value extracted from a whole-bank list: MemoryLocationNotImplemented if one of the locations is beyond
+    the list or None; otherwise 'the interpretation of these bytes by cls', kept uninterpreted
+    (Deferred("interpret", cls, bytes)) - its meaning is spec_interpret, against which from_list is verified
+    in C11."""
+    from pyvc.models import SymList
+    raw = []
+    bad = []
+    for loc in cls.locations:
+        a = loc.address
+        if isinstance(list_, SymList):
+            in_range = a < list_.total()
+            if sym.is_sym(list_.length) or a < list_.length:
+                is_none, v = list_.elem_fn(a)
+                below = a < list_.length
+                # indices at or beyond `length` are only reachable through the appended part (empty here)
+                if list_.appended:
+                    raise sym.Unsupported("from_list contract on a symbolic list with appended items")
+                bad.append(Or(Not(in_range), And(below, is_none), Not(below)))
+                raw.append(v)
+            else:
+                bad.append(True)
+                raw.append(0)
+        else:
+            if a >= len(list_) or list_[a] is None:
+                bad.append(True)
+                raw.append(0)
+            else:
+                bad.append(False)
+                raw.append(list_[a])
+    if Or(bad):
+        throw(L.MemoryLocationNotImplemented)
+    return Deferred("interpret", cls, list(raw))
